@@ -17,9 +17,9 @@ ALL = [f"C{i:02d}" for i in range(1, 21)]
 
 class Ctx:
     def __init__(self, prop: str, tier: str, root: str, overlays: Optional[Dict[str, str]] = None):
+        self.chk = Check(prop, tier, root)
         self.repo = Repo(root, overlays)
         self.prog = Program(self.repo)
-        self.chk = Check(prop, tier, root)
         self.tier = tier
         self.root = root
 
